@@ -124,7 +124,7 @@ func (n *Net) remove(p *Pending) {
 // Dial is the host's DialFn.
 func (n *Net) Dial(ctx context.Context, p peer.ID) error {
 	pe := n.World.Peers[p]
-	if n.InstantDial && pe != nil && pe.Behaviour != BDialFail {
+	if n.InstantDial && pe != nil && pe.Behaviour != BDialFail && pe.Behaviour != BSlowDial {
 		// a successful dial is not an observable fact of the lookup: no event
 		n.mu.Lock()
 		n.seq++
@@ -243,8 +243,10 @@ const (
 	BFiltered   = "lists-filtered" // honest + a peer the query filter rejects
 	BDialFail   = "dial-fail"
 	BReqFail    = "req-fail"
-	BSilent     = "silent" // request ends with a read timeout
-	BEmpty      = "empty"  // answers with no closer peers
+	BSilent     = "silent"    // request ends with a read timeout
+	BEmpty      = "empty"     // answers with no closer peers
+	BSlowDial   = "slow-dial" // honest, but the dial is a parked event (succeeds when delivered)
+	BHang       = "hang"      // requests are never answered: they end when their context does
 )
 
 // Peer is one simulated remote peer.
